@@ -101,12 +101,31 @@ func ExtractTypeNameMap(v interface{}) (map[string]reflect.Type, map[string]stri
 			nameMap[k] = v
 			nameMap[v] = v
 
+			// several slice types may share one list type name ([]int16 and []int32 are both
+			// "[int", []T and []*T both "[T"): decode through the one that can hold every element
 			typ, _ := typMap[k]
-			typMap[v] = typ
+			if old, ok := typMap[v]; !ok || widerListType(typ, old) {
+				typMap[v] = typ
+			}
 		}
 	}
 
 	return typMap, nameMap
+}
+
+// widerListType check whether list type a can hold every element of list type b but not
+// the other way round: pointers (which can be nil) before values, wider numbers before narrower
+func widerListType(a, b reflect.Type) bool {
+	for a.Kind() == reflect.Slice && b.Kind() == reflect.Slice {
+		a, b = a.Elem(), b.Elem()
+	}
+	if (a.Kind() == reflect.Ptr) != (b.Kind() == reflect.Ptr) {
+		return a.Kind() == reflect.Ptr
+	}
+	if a.Size() != b.Size() {
+		return a.Size() > b.Size()
+	}
+	return a.String() < b.String()
 }
 
 // holdsInterface check whether typ is a slice or map with interface elements or keys
